@@ -66,6 +66,9 @@ func setBig(p *Path, v Value, t *Term) Value {
 
 func (p *Path) int64ToInt(x *Term, signed bool) *Term {
 	tb := p.tb
+	if x.sort.K == KInt {
+		return x
+	}
 	u := tb.Bv2Int(x)
 	if !signed {
 		return u
@@ -85,9 +88,9 @@ func (p *Path) iAbs(x *Term) *Term {
 	return tb.Ite(tb.ILt(x, tb.Int(0)), tb.INeg(x), x)
 }
 
-func (p *Path) iSign(x *Term) *Term { // BV64 -1/0/1
+func (p *Path) iSign(x *Term) *Term { // Go int -1/0/1
 	tb := p.tb
-	return tb.Ite(tb.ILt(x, tb.Int(0)), tb.BVI(-1, 64), tb.Ite(tb.Eq(x, tb.Int(0)), tb.BV(0, 64), tb.BV(1, 64)))
+	return tb.Ite(tb.ILt(x, tb.Int(0)), p.ic(-1, 64), tb.Ite(tb.Eq(x, tb.Int(0)), p.ic(0, 64), p.ic(1, 64)))
 }
 
 func (p *Path) divZeroCheck(y *Term) {
@@ -195,7 +198,7 @@ func registerBigIntrinsics() {
 			if rx, ry := bigRaw(p, a[0]), bigRaw(p, a[1]); rx.sort.K == KBV && ry.sort.K == KBV {
 				w := max(rx.sort.W, ry.sort.W)
 				rx, ry = p.bvWiden(rx, w), p.bvWiden(ry, w)
-				return p.tb.Ite(p.tb.Ult(rx, ry), p.tb.BVI(-1, 64), p.tb.Ite(p.tb.Eq(rx, ry), p.tb.BV(0, 64), p.tb.BV(1, 64)))
+				return p.tb.Ite(p.tb.Ult(rx, ry), p.ic(-1, 64), p.tb.Ite(p.tb.Eq(rx, ry), p.ic(0, 64), p.ic(1, 64)))
 			}
 			x, y := bigOf(p, a[0]), bigOf(p, a[1])
 			return p.iSign(p.tb.ISub(x, y))
@@ -206,7 +209,7 @@ func registerBigIntrinsics() {
 		},
 		"(*math/big.Int).Sign": func(p *Path, _ *ssa.Function, a []Value) Value {
 			if rx := bigRaw(p, a[0]); rx.sort.K == KBV {
-				return p.tb.Ite(p.tb.Eq(rx, p.tb.BV(0, rx.sort.W)), p.tb.BV(0, 64), p.tb.BV(1, 64))
+				return p.tb.Ite(p.tb.Eq(rx, p.tb.BV(0, rx.sort.W)), p.ic(0, 64), p.ic(1, 64))
 			}
 			return p.iSign(bigOf(p, a[0]))
 		},
@@ -232,10 +235,16 @@ func registerBigIntrinsics() {
 				}
 				return p.tb.Zext(rx, 64-rx.sort.W)
 			}
+			if p.intW(64) {
+				return p.tb.IMod(p.iAbs(bigOf(p, a[0])), p.tb.IntBig(pow2(64)))
+			}
 			return p.tb.Int2Bv(p.iAbs(bigOf(p, a[0])), 64)
 		},
 		"(*math/big.Int).Int64": func(p *Path, _ *ssa.Function, a []Value) Value {
 			x := bigOf(p, a[0])
+			if p.intW(64) {
+				return p.wrap(x, 64, true)
+			}
 			lo := p.tb.Int2Bv(p.iAbs(x), 64)
 			return p.tb.Ite(p.tb.ILt(x, p.tb.Int(0)), p.tb.BvNeg(lo), lo)
 		},
@@ -243,27 +252,27 @@ func registerBigIntrinsics() {
 			if rx := bigRaw(p, a[0]); rx.sort.K == KBV && !rx.IsConst() {
 				k := p.bvByteLen(rx)
 				if k == 0 {
-					return p.tb.BV(0, 64)
+					return p.i64(0)
 				}
 				top := p.tb.Extract(rx, 8*k-1, 8*k-8)
-				r := p.tb.BV(uint64(8*k), 64)
+				r := p.i64(uint64(8*k))
 				for bits := 7; bits >= 1; bits-- {
-					r = p.tb.Ite(p.tb.Ult(top, p.tb.BV(1<<uint(bits), 8)), p.tb.BV(uint64(8*k-8+bits), 64), r)
+					r = p.tb.Ite(p.tb.Ult(top, p.tb.BV(1<<uint(bits), 8)), p.i64(uint64(8*k-8+bits)), r)
 				}
 				return r
 			}
 			x := p.iAbs(bigOf(p, a[0]))
 			if x.IsConst() {
-				return p.tb.BV(uint64(x.val.BitLen()), 64)
+				return p.i64(uint64(x.val.BitLen()))
 			}
 			k := p.byteLen(x)
 			if k == 0 {
-				return p.tb.BV(0, 64)
+				return p.i64(0)
 			}
 			// exact bit length within the top byte as an ite chain (no fork)
-			r := p.tb.BV(uint64(8*k), 64)
+			r := p.i64(uint64(8*k))
 			for bits := 8*k - 1; bits >= 8*k-7; bits-- {
-				r = p.tb.Ite(p.tb.ILt(x, p.tb.IntBig(new(big.Int).Lsh(bigOne, uint(bits)))), p.tb.BV(uint64(bits), 64), r)
+				r = p.tb.Ite(p.tb.ILt(x, p.tb.IntBig(new(big.Int).Lsh(bigOne, uint(bits)))), p.i64(uint64(bits)), r)
 			}
 			return r
 		},
